@@ -912,4 +912,9 @@ def check(ck):
     d3_copy(ck, mod)
     from .C05 import d7_constructor_and_lists
     d7_constructor_and_lists(ck, mod)
+    # added after the seeding rounds (DESIGN.md 11.2, G5): every instance slot read by
+    # the constructor is stored first, for every combination of its branch conditions
+    from . import extra
+    n = extra.attrs_definite_in_constructor(ck, 'C06.D4.constructor-definite-attributes', mod, 'RaggedArray.__init__')
+    ck.floor('C06.D4.constructor-definite-attributes', n, 4, 'reads of instance attributes in RaggedArray.__init__')
     return EXPLANATION
